@@ -34,7 +34,33 @@ def flav_record(f, role, h, fl):
     }
 
 
-def drive(f, role, plan, case):
+def _history(sc, which):
+    """an earlier, honest TLS session on the SAME two connection objects - one that negotiated about everything that
+    leaves a flag behind (tickets, NPN, client certificate, EMS / TLS 1.3 tickets) - shut down in order with the socket
+    kept open (closeSocket=False).  What the next handshake admits must not depend on it."""
+    from ..flavours import build, flavour
+    from ..endpoints import Task, run_tasks, _read_gen, _close_gen
+    p = sc.pair
+    hf = flavour(3, "ecdhe_rsa", reqCert="cert", npn=True, ticket=True) if which == "h12" else \
+        flavour(4, "tls13", reqCert="cert", tickets13=1)
+    hb = build(hf)
+    st, co, so = p.handshake(ckw=hb["ckw"], skw=hb["skw"], kind=hb["kind"])
+    if not (co.ok and so.ok):
+        return "history handshake failed: %s / %s" % (co.describe(), so.describe())
+    p.write("s", b"x")
+    p.read("c", 10, 1)
+    keep = (p.c.closeSocket, p.s.closeSocket)
+    p.c.closeSocket = p.s.closeSocket = False
+    tcl = Task("c", _close_gen(p.c), p.csock)
+    tpr = Task("s", _read_gen(p.s, 10, 1), p.ssock)
+    run_tasks([tcl, tpr], p.pipes, max_steps=20000)
+    p.c.closeSocket, p.s.closeSocket = keep
+    if not (p.c.closed and p.s.closed) or p.csock.closed or p.ssock.closed:
+        return "history session did not shut down in order"
+    return None
+
+
+def drive(f, role, plan, case, history=None):
     """run one handshake: EUT in `role`, the other side is the puppet.
     returns observation dict"""
     from ..flavours import Scenario
@@ -47,6 +73,12 @@ def drive(f, role, plan, case):
     if not sc.prep_ok:
         return obs, None
     p = sc.pair
+    if history:
+        why = _history(sc, history)
+        if why:
+            obs["prep"] = False
+            obs["history_problem"] = why
+            return obs, None
     eut, peer = (p.c, p.s) if role == "c" else (p.s, p.c)
     eut_sock, peer_sock = (p.csock, p.ssock) if role == "c" else (p.ssock, p.csock)
     pup = Puppet(peer, peer_sock, plan=plan)
@@ -153,7 +185,9 @@ def _replay(job):
     try:
         n = len(case["h"])
         plan = plan_from_script(n, case["script"])
-        obs, sc = drive(f, role, plan, "c06-%d" % idx)
+        obs, sc = drive(f, role, plan, "c06-%d" % idx, history=case.get("history"))
+        if case.get("history") and not obs.get("prep", True):
+            return idx, {"crash": "reused-object case could not be set up: %s" % obs.get("history_problem")}
         return idx, obs
     except BaseException:
         import traceback
@@ -281,6 +315,22 @@ def run(tier):
         c["name"] = records[fi]["name"]
         c["script"] = [list(e) for e in c["script"]]
         todo.append(c)
+    # the same scripts against connection OBJECTS that carried another session before (closed in order, socket kept):
+    # per-connection state of the earlier session (ticket / NPN / client-auth flags) must not widen what is admitted
+    reuse_names = set()
+    for r_ in records:
+        f_ = next(m[0] for m, rr in zip(meta, records) if rr is r_)
+        plain = f_["reqCert"] == "no" and not f_["ticket"] and not f_["npn"] and f_["resume"] == "none" and not f_["hrr"] \
+            and not f_["tickets13"] and not f_.get("dc")
+        if plain and f_["kex"] in ("ecdhe_rsa", "tls13", "rsa") and f_["ver"] in ((1, 3, 4) if tier == "quick" else (0, 1, 2, 3, 4)):
+            reuse_names.add(r_["name"])
+    for c in list(todo):
+        if c["name"] in reuse_names:
+            for hname in (("h12",) if c["name"].startswith("TLS13") else ("h12", "h13")):
+                c2 = dict(c)
+                c2["history"] = hname
+                todo.append(c2)
+    rep.notes["reused_object_flavours"] = sorted(reuse_names)
     jobs = [(i, meta[c["fi"] - 1][0], meta[c["fi"] - 1][1], c) for i, c in enumerate(todo)]
     with Pool(16) as pool:
         outs = pool.map(_replay, jobs, chunksize=8)
@@ -296,7 +346,7 @@ def run(tier):
             rep.notes.setdefault("puppet_problems", [])
             if len(rep.notes["puppet_problems"]) < 20:
                 rep.notes["puppet_problems"].append("%s %s: %s" % (c["name"], c["script"], obs["pup_problems"][:2]))
-        rep.case((c["name"], json.dumps(c["script"])), realised)
+        rep.case((c["name"], json.dumps(c["script"]), c.get("history", "")), realised)
         for clause, text in judge(c, obs):
             if clause == "machinery":
                 rep.machinery_errors.append(text)
@@ -304,7 +354,8 @@ def run(tier):
             script = c["script"]
             sdesc = ";".join("%s@%s%s" % (e[0], _at(c, e), (":" + str(e[2]) if e[0] in ("ins", "rep") else
                                                              (":copy-of-" + c["h"][e[2] - 1] if e[0] == "cpy" else ""))) for e in script) or "none"
-            rep.violation({"flavour": c["name"], "role": c["name"].split(":")[1], "script": sdesc, "clause": clause,
+            rep.violation({"flavour": c["name"] + ("+reused-" + c["history"] if c.get("history") else ""),
+                           "role": c["name"].split(":")[1], "script": sdesc, "clause": clause,
                            "observed": "hs=%s post=%s" % (obs["hs"], obs["post"])},
                           {"case": c, "obs": {k: v for k, v in obs.items() if k not in ("pup_flights",)}, "text": text})
         if c["verdict"] == "open" and c["script"] and not (obs["hs_ok"] and obs["app"]):
